@@ -19,7 +19,7 @@ NewDistrict == "d9"
 
 Pow4(i) == IF i = 1 THEN 4 ELSE IF i = 2 THEN 16 ELSE IF i = 3 THEN 64 ELSE IF i = 4 THEN 256 ELSE 1024
 
-ExpKinds == {"rep", "part", "none0", "absent", "blkRep", "blkNon", "zeroRep", "zeroNon", "tfRep", "rep0", "blkZero"}
+ExpKinds == {"rep", "part", "none0", "absent", "blkRep", "blkNon", "zeroRep", "zeroNon", "tfRep", "rep0", "blkZero", "nullOther"}
               \cup (IF AllowMismatch THEN {"mismatch"} ELSE {})
 
 KindSpace ==
@@ -45,7 +45,8 @@ MkUnit(i, kd, out) ==
        district  |-> IF isX THEN NA ELSE kd.di,
        idCounty  |-> IF isX THEN kd.idc ELSE kd.co,
        idDistrict|-> IF isX THEN kd.idd ELSE kd.di,
-       rep       |-> k \in {"rep", "blkRep", "zeroRep", "tfRep", "rep0", "blkZero", "mismatch", "unexpRep"},
+       rep       |-> k \in {"rep", "blkRep", "zeroRep", "tfRep", "rep0", "blkZero", "mismatch", "unexpRep", "nullOther"},
+       nullRes   |-> k = "nullOther",
        votes     |-> v,
        blockUnit |-> k \in {"blkRep", "blkNon", "blkZero"},
        zeroBase  |-> k \in {"zeroRep", "zeroNon", "blkZero"},
